@@ -275,14 +275,23 @@ Proof.
   apply (new_ok_small ((Z.of_nat (length rest) + 1) * D) S D); try assumption; nia.
 Qed.
 
-Theorem stack_ok_small D S L st bb :
+(* the recursion over the REAL lowered calls (colour streams included) *)
+Fixpoint stack_ok_real (st : list adapter) (bb : rect) (c : call) : bool :=
+  match st with
+  | [] => true
+  | ad :: rest =>
+      let pbb := bbox_stack rest bb in
+      lower1c_ok ad pbb c && stack_ok_real rest bb (lower1c ad pbb c)
+  end.
+
+Theorem stack_ok_real_small D S L st bb :
   rect_small D S bb -> Forall (ad_small D S) st -> 0 <= D -> 0 <= S -> S <= slim ->
   Z.of_nat (length st) <= L ->
   forall c C, call_small C S c -> 0 <= C ->
   3 * (C + Z.of_nat (length st) * ((L + 2) * D)) + S <= lim ->
-  stack_ok st bb c = true.
+  stack_ok_real st bb c = true.
 Proof.
-  intros Hb Hst HD HS HSl. induction Hst as [|ad rest Had Hrest IH]; intros HL c C Hc HC Hlim; cbn [stack_ok length] in *; [reflexivity|].
+  intros Hb Hst HD HS HSl. induction Hst as [|ad rest Had Hrest IH]; intros HL c C Hc HC Hlim; cbn [stack_ok_real length] in *; [reflexivity|].
   pose proof (bbox_stack_small D S rest bb Hb Hrest HD HS) as Hbox.
   set (N := (Z.of_nat (length rest) + 1) * D) in *.
   assert (0 <= N) by (unfold N; nia).
@@ -292,12 +301,47 @@ Proof.
   apply (IH ltac:(lia) _ (C + N + D)); [apply lower1c_small; assumption|lia|nia].
 Qed.
 
+(* ---- the executed, stream-free form equals the recursion over the real calls ---------------------------- *)
+Lemma strip_idem c : strip (strip c) = strip c.
+Proof. destruct c; reflexivity. Qed.
+
+Lemma lower1c_ok_strip ad pbb c : lower1c_ok ad pbb (strip c) = lower1c_ok ad pbb c.
+Proof. destruct ad, c; reflexivity. Qed.
+
+Lemma lower1g_spec ad pbb c : lower1g ad pbb c = strip (lower1c ad pbb c).
+Proof.
+  destruct ad as [a|a|d|f], c as [ps|area cs|area col|col]; try reflexivity.
+  all: try (cbn [lower1g lower1c clip_call strip]; destruct (rect_eqb _ area); reflexivity).
+Qed.
+
+Lemma lower1g_strip ad pbb c : lower1g ad pbb (strip c) = lower1g ad pbb c.
+Proof. destruct ad, c; reflexivity. Qed.
+
+Lemma stack_ok_strip st bb c : stack_ok st bb (strip c) = stack_ok st bb c.
+Proof. destruct st as [|ad rest]; cbn [stack_ok]; [reflexivity|]. rewrite lower1c_ok_strip, lower1g_strip. reflexivity. Qed.
+
+Theorem stack_ok_is_real st bb c : stack_ok st bb c = stack_ok_real st bb c.
+Proof.
+  revert c. induction st as [|ad rest IH]; intros c; cbn [stack_ok stack_ok_real]; [reflexivity|].
+  rewrite lower1g_spec, stack_ok_strip, IH. reflexivity.
+Qed.
+
+Theorem stack_ok_small D S L st bb :
+  rect_small D S bb -> Forall (ad_small D S) st -> 0 <= D -> 0 <= S -> S <= slim ->
+  Z.of_nat (length st) <= L ->
+  forall c C, call_small C S c -> 0 <= C ->
+  3 * (C + Z.of_nat (length st) * ((L + 2) * D)) + S <= lim ->
+  stack_ok st bb c = true /\ stack_ok_real st bb c = true.
+Proof.
+  intros. rewrite stack_ok_is_real. split; eapply stack_ok_real_small; eassumption.
+Qed.
+
 (* display scale (DESIGN.md section 5, C08): |coordinates| <= 1024, extents <= 1024; stacks up to depth 64 *)
 Definition display_scale (st : list adapter) (bb : rect) (c : call) : Prop :=
   rect_small 1024 1024 bb /\ Forall (ad_small 1024 1024) st /\ call_small 1024 1024 c /\ (length st <= 64)%nat.
 
 Theorem stack_total_display_scale st bb c :
-  display_scale st bb c -> build_ok st bb = true /\ stack_ok st bb c = true.
+  display_scale st bb c -> build_ok st bb = true /\ stack_ok st bb c = true /\ stack_ok_real st bb c = true.
 Proof.
   intros (Hb & Hst & Hc & Hl). split.
   - apply (build_ok_small 1024 1024 64); try assumption; unfold lim; lia.
